@@ -8,7 +8,8 @@ export CARGO_TARGET_DIR=$wt/target CARGO_NET_OFFLINE=true
 cd "$wt" || exit 3
 res=$out/confirm.txt; : > "$res"
 git checkout -q -- . 
-if ! git -C /repo apply --check "$out/patch.diff" 2>>"$res"; then echo "patch does not apply to /repo HEAD" | tee -a "$res"; fi
+# (the scratch worktree is a checkout of /repo's HEAD; /repo's own working tree may be in use)
+if [ "$(git rev-parse HEAD)" != "$(git -C /repo rev-parse HEAD)" ]; then echo "worktree is not at /repo HEAD" | tee -a "$res"; fi
 git apply "$out/patch.diff" || { echo "cannot apply patch.diff in worktree" | tee -a "$res"; exit 3; }
 echo "files touched: $(git diff --stat | tail -1)" | tee -a "$res"
 if git diff --name-only | grep -qv '^src/'; then echo "WARNING: touches files outside src/" | tee -a "$res"; fi
